@@ -142,13 +142,45 @@ class P2(rc.P):
             return ('closure', params, body, t.line)
         return rc.P.p_unary(self, ns)
 
+    def p_unary_nocast(self, ns):
+        t = self.peek()
+        if t.kind == 'op' and t.text == '!':
+            self.next()
+            return ('not', self.p_unary_nocast(ns), t.line)
+        if t.kind == 'op' and t.text == '&':
+            self.next()
+            if self.at('mut'):
+                self.next()
+                return ('refmut', self.p_unary_nocast(ns), t.line)
+            if self.at('|'):
+                return ('ref', self.p_unary(ns), t.line)
+            return ('ref', self.p_unary_nocast(ns), t.line)
+        if t.kind == 'op' and t.text == '*':
+            self.next()
+            return ('deref', self.p_unary_nocast(ns), t.line)
+        if t.kind == 'op' and t.text == '-':
+            bad('unary minus', t.line)
+        if t.kind == 'op' and t.text in ('|', '||'):
+            return self.p_unary(ns)
+        return self.p_postfix(ns)
+
+    def p_cast(self, ns):
+        e = self.p_unary_nocast(ns)
+        while self.at('as'):
+            t = self.next()
+            ty = self.ident()
+            if ty not in ('usize', 'u32', 'u8', 'char'):
+                bad('cast `as %s`' % ty, t.line)
+            e = ('cast', e, ty, t.line)
+        return e
+
     def p_mul(self, ns):
-        l = self.p_unary(ns)
+        l = self.p_cast(ns)
         while self.peek().kind == 'op' and self.peek().text in ('*', '/', '%'):
             t = self.next()
             if t.text == '%':
                 bad('operator `%`', t.line)
-            l = ('bin', t.text, l, self.p_unary(ns), t.line)
+            l = ('bin', t.text, l, self.p_cast(ns), t.line)
         return l
 
     def p_postfix(self, ns):
@@ -257,7 +289,10 @@ class P2(rc.P):
                 bad('`break` with a label', t.line)
             return ('break', t.line)
         if t.kind == 'id' and t.text == 'continue':
-            bad('`continue`', t.line)
+            self.next()
+            if self.peek().kind == 'life':
+                bad('`continue` with a label', t.line)
+            return ('continue', t.line)
         if t.kind == 'id' and t.text == 'return':
             self.next()
             return ('return', self.expr(), t.line)
@@ -723,6 +758,19 @@ class T:
                 rs = [self.ex(x, c, pre) for x in e[2]]
                 return ('[' + ', '.join(r[0] for r in rs) + ']', ('vec', rs[0][1]), True)
             bad('macro `%s!` in expression position' % e[1], line)
+        if k == 'cast':
+            r = self.ex(e[1], c, pre)
+            src, dst = r[1], e[2]
+            wide = {'u8': 8, 'u32': 32, 'usize': 64}
+            if src in wide and dst in wide:
+                if wide[src] <= wide[dst]:          # widening: the identity
+                    return (r[0], dst, r[2])
+                return ('(%s %s)' % ({'u8': 'asU8', 'u32': 'asU32'}[dst], self.arg(r)), dst, True)
+            if src == 'u8' and dst == 'char':
+                return ('(u8AsChar %s)' % self.arg(r), 'char', True)
+            if src == 'char' and dst in ('u32', 'usize'):
+                return ('%s.toNat' % self.arg(r), dst, True)
+            bad('cast of a %s `as %s`' % (src, dst), line)
         if k == 'closure':
             name, r = self.closure1(e, c, 'usize', pre)
             if r[1] != 'Expr':
@@ -1151,6 +1199,23 @@ class T:
             return ('(isAsciiAlphabetic %s)' % self.arg(r), 'bool', True)
         if ty == 'char' and name == 'is_ascii_digit':
             return ('(isAsciiDigitChar %s)' % self.arg(r), 'bool', True)
+        ASCII = {'is_ascii_alphabetic': 'isAsciiAlphabetic', 'is_ascii_digit': 'isDigit', 'is_ascii_alphanumeric': 'isAsciiAlphanumeric',
+                 'is_ascii': 'isAscii', 'is_ascii_uppercase': 'isAsciiUppercase', 'is_ascii_lowercase': 'isAsciiLowercase',
+                 'is_ascii_hexdigit': 'isHexDigit'}
+        if ty in ('u8', 'char') and name in ASCII and not args:     # exact std definitions on the byte / scalar value
+            return ('(%s %s)' % (ASCII[name], self.arg(r) if ty == 'u8' else '%s.toNat' % self.arg(r)), 'bool', True)
+        if ty == 'usize' and name in ('min', 'max') and len(args) == 1:
+            a = self.ex(args[0], c, pre)
+            if a[1] != 'usize':
+                bad('`%s` argument' % name, line)
+            return ('(%s %s %s)' % (name, self.arg(r), self.arg(a)), 'usize', True)
+        if ty == 'usize' and name in ('saturating_sub', 'checked_sub', 'checked_add') and len(args) == 1:
+            a = self.ex(args[0], c, pre)
+            if a[1] != 'usize':
+                bad('`%s` argument' % name, line)
+            f = {'saturating_sub': ('saturatingSub', 'usize'), 'checked_sub': ('checkedSubUsize', ('opt', 'usize')),
+                 'checked_add': ('checkedAddUsize', ('opt', 'usize'))}[name]
+            return ('(%s %s %s)' % (f[0], self.arg(r), self.arg(a)), f[1], True)
         if ty == 'char' and name == 'is_alphanumeric':
             self.alnum_use(c)
             return ('(isAlnum %s)' % self.arg(r), 'bool', True)
@@ -1222,7 +1287,7 @@ class T:
         found = []
 
         def f(n):
-            if n[0] == 'break':
+            if n[0] in ('break', 'continue'):
                 found.append(n)
             if n[0] == 'return' and not (n[1][0] == 'call' and n[1][1] == ['Err']):
                 found.append(n)
@@ -1339,6 +1404,10 @@ class T:
             if fin[0] != 'loop' and not c.__dict__.get('brk'):
                 bad('`break` outside a loop', line)
             return [c.brk(c)]
+        if kind == 'continue':      # the next iteration: the loop function calls itself with the current values
+            if not c.__dict__.get('cont'):
+                bad('`continue` outside a loop', line)
+            return [c.cont(c)]
         if kind == 'fn':
             self.nested.append(s[1])
             return k()
@@ -1519,7 +1588,7 @@ class T:
         bad('expression statement `%s`' % self.src_text(e0), line)
 
     def ends_exit(self, blk):
-        if blk[1] is None and blk[0] and blk[0][-1][0] in ('return', 'break'):
+        if blk[1] is None and blk[0] and blk[0][-1][0] in ('return', 'break', 'continue'):
             return True
         last = blk[1] if blk[1] is not None else (blk[0][-1] if blk[0] else None)
         if last is None:
@@ -2007,6 +2076,7 @@ class T:
             fuel_arg = own if not (indesc and own is not None) else own
             first_call = '%s %s %s %s' % (name, ' '.join((c.fuel if a == 'f' else a) for a, _ in fixed), fuel_arg, ' '.join(thr))
         lfin = ('loop', call)
+        cc.cont = call
         if cond is None:
             body = self.seq(blk[0], blk[1], cc, lfin)
         else:
